@@ -17,6 +17,10 @@
 #include "format_specification.h"
 #include "writer.h"
 
+#ifdef CDNS_VERIF
+struct CdnsVerifProbe; // verification harness probe (read-only access to private state)
+#endif
+
 namespace CDNS {
 
     /**
@@ -34,7 +38,11 @@ namespace CDNS {
     class CdnsEncoder {
         public:
 
+#if defined(CDNS_VERIF) && defined(CDNS_VERIF_ENC_BUFFER)
+        static constexpr std::size_t BUFFER_SIZE = CDNS_VERIF_ENC_BUFFER; // scaled buffer for exhaustive replay
+#else
         static constexpr std::size_t BUFFER_SIZE = 2048;
+#endif
 
         /**
          * @brief Construct a new CdnsEncoder object
@@ -222,6 +230,9 @@ namespace CDNS {
         }
 
         private:
+#ifdef CDNS_VERIF
+        friend struct ::CdnsVerifProbe;
+#endif
         /**
          * @brief Write contents of internal buffer to ouptut C-DNS file
          */
